@@ -20,6 +20,18 @@ fn image(p: &CooklangParser, input: &str) -> String {
     }
 }
 
+/// what `parse_metadata` returns (metadata map in order + ordered diagnostics)
+fn image_meta(p: &CooklangParser, input: &str) -> String {
+    match std::panic::catch_unwind(std::panic::AssertUnwindSafe(|| p.parse_metadata(input))) {
+        Ok(res) => {
+            let map = res.output().map(|m| m.map.iter().map(|(k, v)| format!("{k:?}={v:?}")).collect::<Vec<_>>().join(",")).unwrap_or_else(|| "NOOUT".into());
+            let all: Vec<String> = res.report().iter().map(|d| format!("{}|{}", r_diag_full(d), d.message)).collect();
+            format!("{map}\u{1}{}", all.join(";"))
+        }
+        Err(_) => "PANIC".into(),
+    }
+}
+
 pub fn run(ctx: &mut Ctx) {
     assert_sync::<CooklangParser>();
     ctx.rule = "a list of inputs (well-formed recipes, structured recipes, soups) is parsed (a) by a fresh parser per input, (b) in random orders with repetitions on one parser, (c) from 2..16 threads sharing one parser (barrier start, shuffled per thread), both converters and several extension sets; the JSON image of the recipe and the ordered diagnostics (with messages) must be identical in all modes; mode (a) is also compared with the model. non-trivial = input with components or diagnostics".into();
@@ -58,8 +70,12 @@ pub fn run(ctx: &mut Ctx) {
             }
             let mut all = first; all.extend(later); all.extend(inputs.drain(..)); inputs = all;
         }
+        // inputs that end in blank, whitespace-only or comment-only lines, and metadata-only documents (the two entry points
+        // `parse` and `parse_metadata` are interleaved on one parser below)
+        for s in ["Boil the @eggs{2}.\n\n\n", "\n", "  \n\t\n", "Mix.\n-- c\n[- d -]\n\n", "\n>> title: Soup\n>> servings: 4\n", ">> title: Bread\n>> time: 1h\n\nKnead.\n", "---\ntitle: x\n---\n\n\n", "a\n\n\n\n>> k: v\n"] { inputs.push(s.to_string()); }
         // (a) fresh parser per input (+ model)
         let fresh: Vec<String> = inputs.iter().map(|s| image(&mk(), s)).collect();
+        let fresh_meta: Vec<String> = inputs.iter().map(|s| image_meta(&mk(), s)).collect();
         for (s, img) in inputs.iter().zip(fresh.iter()) {
             let reply = img.split('\u{1}').next().unwrap_or("").to_string();
             ctx.case(format!("recipe {ext_bits} {conv} {}", enc_text(s)), reply.clone(), reply.contains("I(") || reply.contains("diags=[E") || reply.contains("diags=[W"), format!("ext={ext_bits} conv={conv} input={s:?}"));
@@ -70,8 +86,16 @@ pub fn run(ctx: &mut Ctx) {
         rng.shuffle(&mut order);
         for &i in &order {
             ctx.eval("", false);
-            let img = image(&shared, &inputs[i]);
-            if img != fresh[i] { ctx.oracle_fail(format!("sequential reuse: ext={ext_bits} conv={conv} input={:?}", inputs[i]), format!("result on a reused parser differs from a fresh parser\nfresh: {}\nreused: {img}", fresh[i]), "c18:history".into()); }
+            // both entry points, in either order, on the same parser
+            let which = rng.below(4);
+            if which != 0 {
+                let img = image(&shared, &inputs[i]);
+                if img != fresh[i] { ctx.oracle_fail(format!("sequential reuse: ext={ext_bits} conv={conv} input={:?}", inputs[i]), format!("result on a reused parser differs from a fresh parser\nfresh: {}\nreused: {img}", fresh[i]), "c18:history".into()); }
+            }
+            if which != 1 {
+                let img = image_meta(&shared, &inputs[i]);
+                if img != fresh_meta[i] { ctx.oracle_fail(format!("sequential reuse (parse_metadata after other calls): ext={ext_bits} conv={conv} input={:?}", inputs[i]), format!("parse_metadata on a reused parser differs from a fresh parser\nfresh: {}\nreused: {img}", fresh_meta[i]), "c18:history-metadata".into()); }
+            }
         }
         ctx.count_n("mode-b-parses", order.len() as u64);
         // (c) threads sharing one parser
